@@ -262,4 +262,26 @@ def run(prog: Program, chk: Check):
                 leaves = [s for st in h.body for s in walk_local(st) if isinstance(s, (ast.Return, ast.Break, ast.Raise))]
                 D.decide(not leaves, fkey(f, f"handler-continues:{norm(tsends[0])}"), where(f, h), "handler falls through to the next recipient",
                          f"write-failure handler in {f.qual} leaves the recipient loop: " + "; ".join(norm(s) for s in leaves))
+    # the message in flight must survive the nested publications (CLIENT_CLOSED, FAILED_MESSAGE, log records) that the
+    # failure handling performs from inside the recipient loop: outgoing headers / payloads are per-call objects
+    from ..dataflow import definitions as _defs
+
+    for f in mm.methods.values():
+        for c in calls_in(f.node):
+            if not (self_call("forward_message")(c) or self_call("send_to_loggers")(c) or (is_method_call(c, "send_message") and ty.expr(f, recv_of(c)).is_cls("Module"))):
+                continue
+            for a in c.args:
+                pth = path_of(a)
+                if pth is None:
+                    continue
+                shared = None
+                if pth.startswith("self.") and pth not in ("self.mm_module", "self.header") and ty.expr(f, a).kind == "cls" and not ty.expr(f, a).is_cls("Module"):
+                    shared = pth
+                elif "." not in pth and not any(k == "param" for k, _ in _defs(f.node, pth)):
+                    for k, r in _defs(f.node, pth):
+                        rp = path_of(r) if isinstance(r, (ast.Attribute, ast.Name)) else None
+                        if rp and rp.startswith("self.") and rp not in ("self.header", "self.mm_module") and ty.expr(f, r).kind == "cls" and not ty.expr(f, r).is_cls("Module"):
+                            shared = rp
+                D.decide(shared is None, fkey(f, f"fresh:{norm(c)[:50]}:{pth}"), where(f, c), f"`{pth}` is a per-call object",
+                         f"{f.qual} sends the shared object `{shared}`: the nested CLIENT_CLOSED / FAILED_MESSAGE / log record published while a failure is handled overwrites the frame still being delivered to the remaining subscribers")
     chk.units.update({"registered_containers": sorted(regs), "conn_error_handlers": nh, "refusal_paths": len(refusals)})
